@@ -556,3 +556,23 @@ V2('grammar-head-from-setting', [('depccg/grammar/ja.py', "from depccg.types imp
 V('tree-word-normalised', 'depccg/tree.py', "        return ' '.join(token[token_key] for token in self.tokens)", "        return ' '.join(token[token_key].replace('-LRB-', '(').replace('-RRB-', ')') for token in self.tokens)", ['C07'])
 V('ja-unary-generator', 'depccg/grammar/ja.py', "    results = []\n    for result in unary_rules[x]:\n        op_string = _unary_rule_symbol(x)\n        results.append(\n            CombinatorResult(\n                cat=result,\n                op_string=op_string,\n                op_symbol=op_string,\n                head_is_left=True,\n            )\n        )\n    return results",
   "    op_string = _unary_rule_symbol(x)\n    return (\n        CombinatorResult(\n            cat=result,\n            op_string=op_string,\n            op_symbol=op_string,\n            head_is_left=True,\n        )\n        for result in unary_rules[x]\n    )", ['C14'])
+# ---------------------------------------------------------------- rounds 9 and 10
+RD_ = 'depccg/tools/reader.py'
+V('xml-setdefault-on-result-tokens', 'depccg/printer/xml.py', "            for k, v in token.items():\n                leaf_node.set(k, v)",
+  "            for k in ('lemma', 'pos', 'chunk', 'entity'):\n                token.setdefault(k, 'XX')\n            for k, v in token.items():\n                leaf_node.set(k, v)", ['C18', 'C15', 'C19'])
+V('xml-setdefault-on-copy', 'depccg/printer/xml.py', "            for k, v in token.items():\n                leaf_node.set(k, v)",
+  "            token = dict(token)\n            for k in ('lemma', 'pos', 'chunk', 'entity'):\n                token.setdefault(k, 'XX')\n            for k, v in token.items():\n                leaf_node.set(k, v)", ['C18', 'C15', 'C19', 'C07'], expect='silent')
+V('auto-reader-counts-brackets', RD_, "    def parse(self):\n        tree = self.next_node()", "    def parse(self):\n        if self.line.count('(') != self.line.count(')'):\n            raise RuntimeError(f'failed to parse: {self.line}')\n        tree = self.next_node()", ['C08'])
+V('ptb-dispatch-closing-first', RD_, "        if item[0] == '(':\n            stack.append(Category.parse(item[1:]))\n        elif item[-1] == ')':\n            reduce(item)",
+  "        if item[-1] == ')':\n            reduce(item)\n        elif item[0] == '(':\n            stack.append(Category.parse(item[1:]))", ['C20'])
+V('auto-fix-any-conj', RD_, "        if cat.endswith(')[conj]') or cat.endswith('][conj]'):", "        if cat.endswith('[conj]'):", ['C08'])
+V('auto-fix-conj-tuple', RD_, "        if cat.endswith(')[conj]') or cat.endswith('][conj]'):", "        if cat.endswith((')[conj]', '][conj]')):", ['C08', 'C12'], expect='silent')
+V('h-pruning-inclusive', H, "i < config->pruning_size", "i <= config->pruning_size", ['C02', 'C16'])
+V('ja-mod-from-first-slot', 'depccg/grammar/ja.py', "    elif ('mod', 'adv') in features:", "    elif isinstance(feature, TernaryFeature) and feature.kv1 == ('mod', 'adv'):", ['C04'])
+V('jigg-bare-base-ignorable', 'depccg/printer/jigg_xml.py', "                if x.feature.value is None:", "                if x.feature.is_ignorable:", ['C07', 'C15'])
+V('cat-clear-lost-star', 'depccg/cat.py', "            self.right.clear_features(*args)\n", "            self.right.clear_features(args)\n", ['C13', 'C14'])
+V('filters-ids-truthy', 'depccg/parsing.py', "            [category_ids[cat] for cat in cats],", "            [category_ids[cat] for cat in cats if category_ids[cat]],", ['C17'])
+V('tree-tokens-shares-children', 'depccg/tree.py', "    def tokens(self) -> List[Token]:\n        return [leaf.children[0] for leaf in self.leaves]",
+  "    def tokens(self) -> List[Token]:\n        if self.is_leaf:\n            return self.children\n        return [leaf.children[0] for leaf in self.leaves]", ['C18'])
+V('guess-via-generator-next', 'depccg/grammar/__init__.py', "    for rule in binary_rules(x, y):\n        if rule.cat == target:\n            return rule\n",
+  "    found = next((rule for rule in binary_rules(x, y) if rule.cat == target), None)\n    if found is not None:\n        return found\n", ['C12', 'C15', 'C20'], expect='silent')
